@@ -31,6 +31,7 @@ def correspondence(ctx):
     integ_corr.coefficient_cases(ctx, rng, ctx.n(60, 600))
     integ_corr.step_cases(ctx, rng, ctx.n(45, 400), eps_list=[0.5, 0.25, 0.125, 0.0625], tag="steps")
     integ_corr.implicit_cases(ctx, rng, ctx.n(30, 300))
+    integ_corr.constrained_cases(ctx, rng, ctx.n(12, 150))
 
 
 # ---------------------------------------------------------------------------------------
@@ -262,6 +263,10 @@ def run(ctx: common.Ctx):
         "thresholds: local order >= 2.7, energy order >= 1.7 (errors pooled over 3 states; energy order from eps0 vs eps0/4), local error at eps/4 <= 0.05 x "
         "displacement, local error <= 20 (eps freq)^3 (1+|z|+|X_h(z)|); a failing case is re-measured at eps0/4 and eps0/16 before it is reported",
     ]
+    from . import integ_corr
+    import sys
+
+    integ_corr.replay_corpus(ctx, sys.modules[__name__])
     correspondence(ctx)
     direct_oracles(ctx)
 
@@ -278,6 +283,29 @@ def replay(ctx, obj):  # noqa: ARG001
         return True
 
 
-LEVEL_TEXT = "PLACEHOLDER (rewritten by the Lean-side author): direct oracles on the real integrators, see module docstring."
-LEVEL_NOTE = "PLACEHOLDER (rewritten by the Lean-side author)."
-TECHNIQUE = "PLACEHOLDER: Lean 4 theorems + observed-order oracle against an independent ODE/DAE reference on the real code"
+LEVEL_TEXT = (
+    'Lean 4 proof: for EVERY list of free coefficients the derived composition coefficients are palindromic and the '
+    'coefficients paired with flow A and with flow B each sum to one (coeffs_palindrome, coeffs_sum_a, coeffs_sum_b, '
+    'coeffs_length_flows; leapfrog/BCSS2/3/4 are instances). Leapfrog on a NON-LINEAR potential: exact algebraic identity '
+    'step = second-order Taylor jet of the exact flow + (0, eps^3/4 H N g(q) - eps/2 r(delta)) with r the Taylor remainder '
+    'of the gradient at a displacement delta = O(eps) (leapfrog_jet_pos, leapfrog_jet_mom, leapfrog_local_error, '
+    'leapfrog_local_error_quadratic, leapfrog_energy_error_1d). ALL symmetric compositions on linear systems: the step '
+    'matrix equals 1 + eps F + eps^2/2 F^2 + eps^3 rest(eps) with F the Hamiltonian vector field matrix and rest an explicit '
+    'polynomial, for every free list and both initial flows (ordered_sums_palindrome, stepProd_jet, symComp_order2_linear, '
+    'stepMatrix_spec linking the matrix to the model step). Negative control: a step whose sub-steps use the full time step '
+    'has first-order jet x + 2 eps f(x) (fullstep_first_order_defect). Tie: live `integrator.coefficients` vs the model '
+    'exactly; single and multiple steps of real integrators vs the exact-rational model for eps in {1/2,1/4,1/8,1/16}; '
+    'implicit leapfrog/midpoint and constrained leapfrog (linear constraints) vs the model (which mirrors the time_step/2 '
+    'and time_step/n_inner arrangement). Direct oracle: observed order of '
+    'local error (>= 2.7) and energy error (>= 1.7) of the real step against an independent high-accuracy ODE/DAE reference '
+    "of the system's OWN Hamiltonian for all integrators x system classes, plus absolute consistency bounds and published "
+    'BCSS coefficient values.'
+)
+LEVEL_NOTE = (
+    'Trusted: Lean kernel, axioms {propext, Classical.choice, Quot.sound}; the analytic fact that the Taylor remainder of a '
+    'C^2 gradient is O(|delta|^2) and that agreement of jets to order eps^2 means local error O(eps^3) (DESIGN section 4 (iv)); '
+    'SciPy DOP853 as reference integrator; tolerances of the observed-order test. PARTIAL: for implicit and constrained '
+    'integrators and for non-linear targets under general compositions second order is established by the observed-order '
+    'oracle, not by a theorem.'
+)
+TECHNIQUE = 'Lean 4 theorems (coefficient identities, exact jet identities in non-commutative rings) + model/implementation correspondence + observed-order oracle against an independent ODE/DAE reference'
